@@ -448,3 +448,207 @@ class FoldEnumeration(NativeCheck):
 
 
 NATIVE = [FoldEnumeration]
+
+
+# ---------------------------------------------------------------- reduce_reconcile (C11_r6_3): when the tree must be rebuilt
+from cxxvc.models import Vec  # noqa: E402
+
+
+class RHandle(Obj):
+    """TSOutputHandle as an assignable value: its identity lives in the store"""
+    cls = "TSOutputHandle"
+    ctx = None
+
+    def __init__(self, name, hid):
+        Obj.__init__(self, name=name)
+        RHandle.ctx.store[(self.oid, "hid")] = hid
+
+    @property
+    def hid(self):
+        return RHandle.ctx.store[(self.oid, "hid")]
+
+    def m_same_as(self, I, args, n):
+        o = I.ctx.rv(args[0])
+        if not isinstance(o, RHandle):
+            raise Gap("same_as(%r)" % (o,))
+        return self.hid == o.hid
+
+    def op(self, I, op, rest, n, a0):
+        if op == "=":
+            o = I.ctx.rv(rest[0])
+            if not isinstance(o, RHandle):
+                raise Gap("handle assigned from %r" % (o,))
+            I.ctx.write(Loc((self.oid, "hid")), o.hid)
+            return self
+        return NotImplemented
+
+
+class RInput(Obj):
+    cls = "TSInputView"
+
+    def __init__(self, k, idx):
+        Obj.__init__(self, name="input%s" % idx)
+        self.k, self.idx = k, idx
+
+    def m_indexed_child_at(self, I, args, n):
+        i = I.ctx.rv(args[0])
+        if not z3.is_int_value(i):
+            raise Gap("indexed_child_at(symbolic)")
+        return RInput(self.k, i.as_long())
+
+    def m_bound_output(self, I, args, n):
+        return RHandle("bound_output", self.k.src_new[self.idx])
+
+
+class CollOps(Obj):
+    cls = "ReduceCollectionOps"
+
+    def __init__(self, k):
+        Obj.__init__(self, name="collection_ops")
+        self.k = k
+
+    def m_available(self, I, args, n):
+        return self.k.available
+
+    def m_structure_modified(self, I, args, n):
+        return self.k.structure_modified
+
+    def m_reconcile(self, I, args, n):
+        """opaque per-shape reconciliation (TSD / TSL variants): mirrors the collection's live elements into the dense leaf table
+        (any new size) and says whether the leaf set changed"""
+        ctx = I.ctx
+        k = k_ = self.k
+        ctx.write(Loc((k.g.oid, "reconciles")), ctx.store[(k.g.oid, "reconciles")] + 1)
+        ctx.write(Loc((k.g.oid, "reconcile_full")), ctx.rv(args[2]))
+        n1 = ctx.fresh("live_after_reconcile")
+        ctx.assume(n1 >= 0)
+        ctx.write(Loc((k_.dense.oid, "len")), n1)
+        return k.reconcile_changed
+
+
+class ReduceReconcile(Kernel):
+    name = "reduce_node.cpp:reduce_reconcile"
+    tu = TU
+    filter = "reduce_reconcile"
+    fn_name = "reduce_reconcile"
+    property_ids = ("C11",)
+    scope = {"lo": 0, "hi": 3}
+    title = ("reduce_reconcile: the combiner tree is rebuilt when the leaf set changed, a source was re-pointed, or the ZERO source "
+             "was re-pointed while the result involves the zero (no or one live element)")
+
+    def setup(self, I):
+        ctx = I.ctx
+        RHandle.ctx = ctx
+        g = Obj("ghost", "rg")
+        self.g = g
+        for nm, v in (("reconciles", z3.IntVal(0)), ("reconcile_full", z3.BoolVal(False)), ("rebuilds", z3.IntVal(0)),
+                      ("rebuild_full", z3.BoolVal(False)), ("cleared", z3.BoolVal(False))):
+            ctx.store[(g.oid, nm)] = v
+        self.T = z3.Int("evaluation_time")
+        self.src_new = {0: z3.Int("collection_source_now"), 1: z3.Int("zero_source_now")}
+        self.coll_old, self.zero_old = z3.Int("collection_source_before"), z3.Int("zero_source_before")
+        self.init0, self.primed0, self.published0 = z3.Bool("source_handles_initialised0"), z3.Bool("primed0"), z3.Bool("published0")
+        self.has_zero = z3.Bool("has_zero")
+        self.available, self.structure_modified = z3.Bool("collection_available"), z3.Bool("structure_modified")
+        self.reconcile_changed = z3.Bool("reconcile_reports_a_change")
+        self.n0 = z3.Int("live0")
+        ctx.assume(self.n0 >= 0)
+        st = Obj("ReduceNodeStorage", "storage")
+        self.st = st
+        self.dense = Vec(ctx, "dense_to_key", length=self.n0)
+        ctx.store[(st.oid, "dense_to_key")] = self.dense
+        ctx.store[(st.oid, "source_handles_initialised")] = self.init0
+        ctx.store[(st.oid, "collection_source")] = RHandle("stored_collection_source", self.coll_old)
+        ctx.store[(st.oid, "zero_source")] = RHandle("stored_zero_source", self.zero_old)
+        ctx.store[(st.oid, "primed")] = self.primed0
+        ctx.store[(st.oid, "published")] = self.published0
+        ctx.store[(st.oid, "structural_leaves")] = Vec(ctx, "structural_leaves")
+        ctx.store[(st.oid, "structural_positions")] = Vec(ctx, "structural_positions")
+        spec = Obj("ReduceNodeSpec", "spec")
+        ctx.store[(spec.oid, "has_zero")] = self.has_zero
+        cx = Obj("ReduceNodeContext", "context")
+        ctx.store[(cx.oid, "spec")] = spec
+        co = CollOps(self)
+
+        class Fn:
+            def __init__(self, m):
+                self.m = m
+
+            def call(self, I, args, n):
+                return self.m(I, args, n)
+        for nm in ("available", "structure_modified", "reconcile"):
+            ctx.store[(co.oid, nm)] = Fn(getattr(co, "m_" + nm))
+        ctx.store[(cx.oid, "collection_ops")] = Ptr(co, z3.BoolVal(False))
+        self.view = Obj("NodeView", "view")
+        return None, {"view": self.view, "context": cx, "storage": st, "evaluation_time": self.T}
+
+    def method_handler(self, obj, name, node):
+        if obj is self.view and name == "input":
+            return lambda I, o, a, n: RInput(self, "root")
+        return Kernel.method_handler(self, obj, name, node)
+
+    def ctor_handler(self, qt, node):
+        if qt.endswith("TSOutputHandle"):
+            def mk(I, args, n):
+                a = [I.ctx.rv(x) for x in args]
+                if len(a) == 1 and isinstance(a[0], RHandle):
+                    return a[0]
+                return RHandle("empty_handle", z3.IntVal(-1))
+            return mk
+        return Kernel.ctor_handler(self, qt, node)
+
+    def default_value(self, I, qt, d):
+        from cxxvc.interp import strip_type
+        if strip_type(qt).endswith("TSOutputHandle"):
+            return RHandle("empty_handle", z3.IntVal(-1))
+        return Kernel.default_value(self, I, qt, d)
+
+    def function_handler(self, name, node, callee_node):
+        if name == "effective_output_handle":
+            return lambda I, a, n: I.ctx.rv(a[0])
+        if name == "clear_leaf_state":
+            def clear(I, a, n):
+                I.ctx.write(Loc((self.dense.oid, "len")), z3.IntVal(0))
+                I.ctx.write(Loc((self.g.oid, "cleared")), z3.BoolVal(True))
+                return VOID
+            return clear
+        if name == "rebuild_structure":
+            def rebuild(I, a, n):
+                ctx = I.ctx
+                ctx.write(Loc((self.g.oid, "rebuilds")), ctx.store[(self.g.oid, "rebuilds")] + 1)
+                ctx.write(Loc((self.g.oid, "rebuild_full")), ctx.rv(a[4]))
+                return VOID
+            return rebuild
+        return Kernel.function_handler(self, name, node, callee_node)
+
+    def post(self, I, ret):
+        ctx = I.ctx
+        g = self.g
+        gg = lambda nm: ctx.store[(g.oid, nm)]
+        live = self.dense.length(ctx)
+        coll_rep = z3.And(self.init0, self.src_new[0] != self.coll_old)
+        zero_rep = z3.And(self.has_zero, self.init0, self.src_new[1] != self.zero_old)
+        reconciled = z3.And(self.available, z3.Or(z3.Not(self.primed0), coll_rep, self.structure_modified))
+        cleared = z3.And(z3.Not(self.available), z3.Or(self.primed0, self.n0 != 0))
+        structural = z3.Or(z3.And(reconciled, self.reconcile_changed), cleared)
+        zero_matters = z3.And(zero_rep, live <= 1)
+        rebuilt = gg("rebuilds") == 1
+        ctx.oblige("ensures.a-re-pointed-zero-rebuilds-the-whole-tree-whenever-the-result-involves-the-zero[C11 the zero for an empty "
+                   "collection, combine(value, zero) for a single element: the root combiner must be bound to the CURRENT zero]",
+                   z3.Implies(zero_matters, z3.And(rebuilt, gg("rebuild_full"))), kind="post-normal")
+        ctx.oblige("ensures.rebuilt-exactly-when-leaves-changed,a-source-was-re-pointed,the-zero-matters-or-nothing-was-published-yet[C11 at "
+                   "every tick the result is the fold over exactly the currently valid elements]",
+                   z3.And(gg("rebuilds") == z3.If(z3.Or(structural, coll_rep, zero_matters, z3.Not(self.published0)), 1, 0),
+                          ret == rebuilt), kind="post-normal")
+        ctx.oblige("ensures.full-rebuild-when-everything-may-have-moved", z3.Implies(rebuilt, gg("rebuild_full") == z3.Or(
+            coll_rep, z3.Not(self.published0), z3.And(reconciled, z3.Not(self.primed0)), cleared, zero_matters)), kind="post-normal")
+        ctx.oblige("ensures.leaf-table-reconciled-exactly-when-the-collection-may-have-changed[C11 exactly the currently valid elements]",
+                   z3.And(gg("reconciles") == z3.If(reconciled, 1, 0),
+                          z3.Implies(reconciled, gg("reconcile_full") == z3.Or(z3.Not(self.primed0), coll_rep)),
+                          gg("cleared") == cleared), kind="post-normal")
+        cs, zs = ctx.store[(self.st.oid, "collection_source")], ctx.store[(self.st.oid, "zero_source")]
+        ctx.oblige("ensures.observed-sources-remembered", z3.And(cs.hid == self.src_new[0], z3.Implies(self.has_zero, zs.hid == self.src_new[1]),
+                                                                ctx.store[(self.st.oid, "source_handles_initialised")]), kind="post-normal")
+
+
+KERNELS += [ReduceReconcile]
